@@ -103,3 +103,23 @@ def c15_domain(ctx):
         except NotImplementedError:
             ok = False
         ctx.ensure(f"gauss({dim}, 1) rejected", not ok)
+
+
+@ob("C15.pure", kind="X", cases=[dict(dim=d, order=o) for d in (1, 2, 3) for o in ORDERS[d]], funcs=FUNCS, samples=(0, 0),
+    cite="Each quadrature rule offered ... (a rule must not depend on which rules were requested before)",
+    note="history: every interleaving of gauss / gauss_reference_cell requests for the same rule returns the same tables, in exact "
+         "arithmetic and natively in float64")
+def c15_pure(ctx, dim, order):
+    import darsia.utils.quadrature as q
+    for label, g, r in (("exact", *(lambda ns: (ns["gauss"], ns["gauss_reference_cell"]))(exact_module(MOD))), ("float64", q.gauss, q.gauss_reference_cell)):
+        zero = is_zero if label == "exact" else (lambda e: abs(float(e)) < 1e-14)
+        flat = lambda t: [x for a in t for x in np.array(a, dtype=object).flat]
+        a0, b0 = flat(g(dim, order)), flat(r(dim, order))
+        a1, b1 = flat(g(dim, order)), flat(r(dim, order))
+        b2, a2 = flat(r(dim, order)), flat(g(dim, order))
+        for name, x, y in (("gauss after gauss_reference_cell", a0, a1), ("gauss_reference_cell repeated", b0, b1),
+                           ("gauss_reference_cell again", b0, b2), ("gauss after two unit-cell requests", a0, a2)):
+            ctx.ensure(f"{label}: {name} returns the same rule", len(x) == len(y) and all(zero(p - q_) for p, q_ in zip(x, y)))
+    c0 = q.reference_cell_corners(dim)
+    c1 = q.reference_cell_corners(dim)
+    ctx.ensure("corner rule repeated returns the same rule", all(np.array_equal(u, v) for u, v in zip(c0, c1)))
